@@ -93,6 +93,22 @@ fn install_panic_hook() {
     }));
 }
 
+/// the tree under /repo this binary was compiled from vs. the tree as it is now
+fn warn_if_stale() {
+    let built = env!("RV_REPO_STATE");
+    let head = std::process::Command::new("git").args(["-C", "/repo", "rev-parse", "HEAD"]).output().map(|o| String::from_utf8_lossy(&o.stdout).trim().to_string()).unwrap_or_default();
+    let diff = std::process::Command::new("git").args(["-C", "/repo", "diff", "HEAD", "--", "ractor/src", "ractor_cluster/src", "ractor_cluster_derive/src"]).output().map(|o| o.stdout).unwrap_or_default();
+    let mut h: u64 = 0xcbf29ce484222325;
+    for b in diff {
+        h ^= b as u64;
+        h = h.wrapping_mul(0x100000001b3);
+    }
+    let now = format!("{head}-{h:016x}");
+    if built != now {
+        eprintln!("WARNING: this rv binary was built from /repo state {built}, the tree is now {now}: STALE BINARY — rebuild with /verif/check (results below describe the old tree)");
+    }
+}
+
 fn main() {
     install_panic_hook();
     let args: Vec<String> = std::env::args().skip(1).collect();
@@ -107,6 +123,7 @@ fn main() {
         .unwrap_or(1);
     match args.first().map(|s| s.as_str()) {
         Some("run") => {
+            warn_if_stale();
             let prop = args.get(1).expect("property id");
             let parts: Vec<&PartDesc> = reg.iter().filter(|p| p.prop == prop).collect();
             if parts.is_empty() {
